@@ -24,7 +24,8 @@ RtFails(r) ==
   Chk("C18", /\ Valid(r.class, r.type, r.a)
              /\ r.res.out = "ok"
              /\ IF r.mode = 0 THEN Equal(r.class, r.type, r.res.rdata, r.a) /\ Len(r.res.rdata) = Len(r.a) ELSE r.res.rdata = r.a)
-Fails(r) == IF r.ev = "Rd" THEN RdFails(r) ELSE IF r.ev = "Read" THEN ReadFails(r) ELSE RtFails(r)
+\* a panic inside validate / equals / RdataSetOwned is an outcome no operator of Rdata.tla has (both properties say "never panics")
+Fails(r) == IF r.ev = "RdPanic" THEN {"C18", "C19"} ELSE IF r.ev = "Rd" THEN RdFails(r) ELSE IF r.ev = "Read" THEN ReadFails(r) ELSE RtFails(r)
 
 VARIABLES l, bad, nbad
 Init == l = 1 /\ bad = <<>> /\ nbad = 0
